@@ -4,6 +4,8 @@ package main
 
 import (
 	"fmt"
+	"github.com/google/mtail/internal/metrics"
+	"github.com/google/mtail/internal/metrics/datum"
 	"strconv"
 	"strings"
 )
@@ -170,6 +172,28 @@ func c14Run(r *runCtx, id string, f []string) {
 			}
 		}
 	}
+	// whatever was reloaded: a histogram's data are counted against the boundaries it is declared with
+	_ = env.store.Range(func(m *metrics.Metric) error {
+		m.RLock()
+		defer m.RUnlock()
+		if m.Kind != metrics.Histogram {
+			return nil
+		}
+		for _, lv := range m.LabelValues {
+			b, ok := lv.Value.(*datum.Buckets)
+			if !ok {
+				continue
+			}
+			same := len(b.Buckets) >= len(m.Buckets)
+			for i := 0; same && i < len(m.Buckets); i++ {
+				same = b.Buckets[i].Range == m.Buckets[i]
+			}
+			if !same {
+				addFail("histogram-keeps-old-boundaries", "after the history the histogram %s of %s is declared with %v and its data are counted in %v", m.Name, m.Program, m.Buckets, b.Buckets)
+			}
+		}
+		return nil
+	})
 	final := env.observe()
 	obs = append(obs, fmt.Sprintf("H[%s] C[%s] S[%s]", final.handles, final.counters, strings.Join(final.store, " ")))
 	r.obs(id, "%s", strings.Join(obs, " || "))
